@@ -104,10 +104,11 @@ def pattern_verdict(rel: str, pat: str):
     if pat.startswith("**/"):
         inner = pat[3:]
         if inner.endswith("/"):
-            name = inner[:-1]
-            if name in dirs[1:]:
+            segs = inner[:-1].split("/")
+            hits = [i for i in range(len(dirs) - len(segs) + 1) if dirs[i : i + len(segs)] == segs]
+            if any(i >= 1 for i in hits):
                 return True
-            if dirs[:1] == [name]:
+            if hits:
                 return None
             return False
         if fnmatch.fnmatchcase(base, inner):
@@ -194,6 +195,7 @@ def items(tier: str, seed: int):
     for block in chunks(pts, 12):
         for ps_block in chunks(psets, 9):
             out.append({"kind": "pat", "trees": block, "psets": ps_block, "carriers": carriers})
+    out.append({"kind": "multiseg", "carriers": carriers})
     out.append({"kind": "subprocess"})
     return out
 
@@ -352,6 +354,18 @@ def run_item(item) -> Acc:
                     _all_targets(acc, root, allfiles, dirs, ps, carrier, t)
                     remove(root)
         acc.sample({"tree": item["trees"][-1], "patterns": item["psets"][-1], "carriers": item["carriers"]})
+    elif k == "multiseg":
+        # directory patterns of more than one segment below `**/` (gitignore: the directory chain anywhere)
+        leaf = (("a.py", None),)
+        t = (("pkg", (("sub", (("legacy", (("a.py", None), ("deep", leaf))), ("legacy2", leaf), ("a.py", None))), ("legacy", leaf))), ("sub", (("legacy", leaf),)), ("a.py", None))
+        for ps in (["**/sub/legacy/"], ["**/legacy/deep/"], ["**/pkg/sub/"], ["**/sub/legacy/", "**/legacy/"]):
+            for carrier in item["carriers"]:
+                if carrier == "both" and len(ps) < 2:
+                    continue
+                root, allfiles, dirs = _materialise(t, ps, carrier)
+                _all_targets(acc, root, allfiles, dirs, ps, carrier, t)
+                remove(root)
+        acc.sample({"tree": t, "patterns": ["**/sub/legacy/", "**/legacy/deep/", "**/pkg/sub/"], "carriers": item["carriers"]})
     elif k == "subprocess":
         t = (("build", (("a.py", None),)), ("legacy", (("a.py", None),)), ("pkg", (("__pycache__", (("m.pyc", None),)), ("a.py", None))), ("a_gen.py", None), ("m.so", None))
         for ps, carrier in (([], None), (["legacy/"], "ignorefile"), (["*_gen.py"], "yaml")):
